@@ -7,7 +7,7 @@ import tempfile
 import time
 from pathlib import Path
 
-from .. import docgen, e2e
+from .. import detgen, docgen, e2e
 from ..common import REPO
 from ..keyenc import unkey
 from ..runner import Check
@@ -15,23 +15,73 @@ from ..subproc import child_env, pmap, run_py
 from ..translate import set_sites
 
 CHILD = r'''
-import json, os, random, sys, importlib
+import json, os, random, sys, importlib, functools
 from pathlib import Path
 job = json.load(open(sys.argv[1]))
+
+# ---- every value a process-wide cache of the package hands out is remembered with a snapshot of what it looked like
+_memo = []
+def _instrument(orig):
+    def patched(*a, **kw):
+        def wrap(fn):
+            if not str(getattr(fn, "__module__", "")).startswith("datamodel_code_generator"):
+                return fn
+            @functools.wraps(fn)
+            def inner(*args, **kwargs):
+                v = fn(*args, **kwargs)
+                if v is not None and not isinstance(v, (str, int, float, bool, bytes, frozenset)):
+                    try:
+                        _memo.append((fn.__module__ + ":" + fn.__qualname__, v, repr(v)))
+                    except Exception:
+                        pass
+                return v
+            return inner
+        if len(a) == 1 and callable(a[0]) and not kw:
+            return orig(wrap(a[0]))
+        deco = orig(*a, **kw)
+        return lambda fn: deco(wrap(fn))
+    return patched
+if job.get("class_state"):
+    functools.lru_cache = _instrument(functools.lru_cache)
+    functools.cache = _instrument(functools.cache)
+
 if job.get("listing"):
     import pathlib
     mode = job["listing"]
+    def arrange(items, key):
+        items = sorted(items, key=key)
+        if mode == "reverse":
+            items.reverse()
+        elif mode != "sorted":
+            random.Random(mode).shuffle(items)
+        return items
     def permuted(orig):
         def f(self, *a, **kw):
-            items = sorted(orig(self, *a, **kw), key=str)
-            if mode == "reverse":
-                items.reverse()
-            elif mode != "sorted":
-                random.Random(mode).shuffle(items)
-            return iter(items)
+            return iter(arrange(orig(self, *a, **kw), str))
         return f
     for name in ("rglob", "glob", "iterdir"):
         setattr(pathlib.Path, name, permuted(getattr(pathlib.Path, name)))
+    # the listing primitives themselves (os.walk, os.fwalk, glob, shutil and pathlib all go through these two)
+    _scandir, _listdir = os.scandir, os.listdir
+    class _Scan:
+        def __init__(self, *a):
+            with _scandir(*a) as it:
+                self._items = iter(arrange(list(it), lambda e: e.name))
+        def __iter__(self):
+            return self
+        def __next__(self):
+            return next(self._items)
+        def __enter__(self):
+            return self
+        def __exit__(self, *exc):
+            return False
+        def close(self):
+            pass
+    def scandir(*a):
+        return _Scan(*a)
+    def listdir(*a):
+        return arrange(_listdir(*a), lambda x: x)
+    os.scandir, os.listdir = scandir, listdir
 os.makedirs(job["cwd"], exist_ok=True)
 os.chdir(job["cwd"])
 import datamodel_code_generator as d
@@ -78,6 +128,9 @@ for case in job["cases"]:
         kw["formatters"] = []
     if "enum_field_as_literal" in kw:
         kw["enum_field_as_literal"] = d.LiteralType(kw["enum_field_as_literal"])
+    for so in ("field_extra_keys", "field_extra_keys_without_x_prefix", "strict_types"):
+        if so in kw:
+            kw[so] = set(kw[so])
     try:
         d.generate(src, input_file_type=d.InputFileType(case["input_file_type"]), output=target,
                    output_model_type=d.DataModelType(case["model"]), disable_timestamp=True, **kw)
@@ -100,7 +153,16 @@ after = state()
 shared_after = shared_instances() if job.get("class_state") else {}
 changed = {k: [before[k], after[k]] for k in before if before[k] != after[k]}
 changed.update({k: [shared_before[k], shared_after.get(k, "<gone>")] for k in shared_before if shared_before[k] != shared_after.get(k)})
-json.dump({"results": results, "state_changed": changed, "shared_instances": len(shared_before)}, open(sys.argv[2], "w"))
+memo_kinds = {}
+for name, obj, snap in _memo:
+    memo_kinds[name] = memo_kinds.get(name, 0) + 1
+    try:
+        now = repr(obj)
+    except Exception as e:
+        now = "unreadable: " + type(e).__name__
+    if now != snap:
+        changed.setdefault("memoised value of " + name, [snap, now])
+json.dump({"results": results, "state_changed": changed, "shared_instances": len(shared_before), "memo_values": memo_kinds}, open(sys.argv[2], "w"))
 '''
 
 MAIN_CHILD = r'''
@@ -187,7 +249,7 @@ def make_cases(ck: Check, lab: Lab, n: int) -> list[dict]:
     rng = ck.rng.fork("cases")
     cases = []
     for i in range(n):
-        r = i % 8
+        r = i % 12
         cid = f"c{i}"
         model = rng.choice(e2e.MODEL_KINDS)
         opts = dict(rng.choice(OPTION_POOL))
@@ -203,6 +265,22 @@ def make_cases(ck: Check, lab: Lab, n: int) -> list[dict]:
             cases.append({**base, "kind": "shadow", "input_file_type": "jsonschema", "text": json.dumps(docgen.json_schema_shadow(rng))})
         elif r == 7:   # the same types under ordinary names: shows whatever an earlier run left behind in shared objects
             cases.append({**base, "kind": "plain-types", "opts": {}, "input_file_type": "jsonschema", "text": json.dumps(docgen.json_schema_plain_types(rng))})
+        elif r in (8, 11):   # several extension keywords per property + the options that keep them (sets of key names on the way)
+            doc, xopts = detgen.json_schema_extras(rng)
+            cases.append({**base, "kind": "extras", "opts": xopts, "input_file_type": "jsonschema", "text": json.dumps(doc)})
+        elif r == 9:   # discriminators: the parser writes the converted property name back into the loaded document
+            ift, doc = detgen.discriminator_doc(rng)
+            cases.append({**base, "kind": "discriminator", "input_file_type": ift, "text": json.dumps(doc)})
+        elif r == 10:  # >= 2 sub-directories, distinct basenames, class names colliding across files
+            files = detgen.schema_tree(rng)
+            ift, mixed = "jsonschema", False
+            if rng.chance(1, 3):   # input type inferred from the directory's content
+                ift = "auto"
+                if rng.chance(1, 2):   # … whose files are not all of one type
+                    files[f"{rng.choice(['api', 'a', 'zz'])}/service_api.json"] = json.dumps(detgen.discriminator_doc_openapi(rng))
+                    mixed = True
+            cases.append({**base, "kind": "tree", "input_file_type": ift, "path": lab.write_dir(cid, files), "modular": True,
+                          "same_basename": False, "files": sorted(files), "mixed_types": mixed})
         else:
             opts = {k: v for k, v in opts.items() if k in ("snake_case_field", "use_standard_collections", "use_union_operator", "use_schema_description", "use_field_description")}
             cases.append({**base, "opts": opts, "kind": "graphql", "input_file_type": "graphql", "text": docgen.graphql_sdl(rng)})
@@ -220,6 +298,33 @@ def noise_cases(rng, k: int, tag: str) -> list[dict]:
                     "default_formatters": False, "noise": True, "kind": "jsonschema", "input_file_type": "jsonschema",
                     "text": json.dumps(doc)})
     return out
+
+
+RENAMING_POOL = [
+    {"snake_case_field": True},
+    {"snake_case_field": True, "use_annotated": True, "field_constraints": True},
+    {"capitalise_enum_members": True, "snake_case_field": True},
+    {"remove_special_field_name_prefix": True},
+    {"special_field_name_prefix": "f"},
+    {"original_field_name_delimiter": "-", "snake_case_field": True},
+    {"use_title_as_name": True},
+    {"allow_population_by_field_name": True, "snake_case_field": True},
+]
+
+
+def twin_of(rng, case: dict, tag: str) -> dict:
+    """an earlier call on the SAME text (or directory) with OTHER options: what such a call leaves behind must not
+    show in the observed call (caches keyed by the text only, documents rewritten in place, …)"""
+    pool = RENAMING_POOL if case["kind"] == "discriminator" or rng.chance(2, 3) else OPTION_POOL
+    for _ in range(5):
+        opts = dict(rng.choice(pool))
+        if opts != case["opts"]:
+            break
+    keep = {k: v for k, v in case["opts"].items() if k.startswith("field_extra_keys") or k == "field_include_all_keys"}
+    if case["kind"] == "graphql":
+        opts = {k: v for k, v in opts.items() if k in ("snake_case_field", "use_title_as_name")}
+    model = case["model"] if rng.chance(1, 2) else rng.choice(e2e.MODEL_KINDS)
+    return {**strip(case), "id": f"twin-{tag}-{case['id']}", "opts": {**keep, **opts}, "model": model, "noise": True, "default_formatters": False}
 
 
 def class_state_list() -> list[tuple[str, str, str]]:
@@ -261,8 +366,9 @@ def strip(case: dict) -> dict:
     return {k: v for k, v in case.items() if k not in ("noise",)}
 
 
-def diagnose(lab: Lab, case: dict, cfgs: dict) -> str:
-    """which single factor changes the output of this case (fresh process each, one factor varied)"""
+def diagnose(lab: Lab, case: dict, cfgs: dict, hints: list[dict] | None = None) -> str:
+    """which single factor changes the output of this case (fresh process each, one factor varied; `hints` are the
+    configurations of the processes that disagreed: their hash seed, listing order and cwd are tried, too)"""
     base_cwd = str(lab.root / "w" / "diag")
     runs = {
         "base": dict(seed=0, cwd=base_cwd, listing="sorted"),
@@ -270,13 +376,42 @@ def diagnose(lab: Lab, case: dict, cfgs: dict) -> str:
         "hashseed2": dict(seed=2, cwd=base_cwd, listing="sorted"),
         "cwd": dict(seed=0, cwd=str(lab.root / "w" / "diag" / "x" / "y"), listing="sorted"),
         "listing": dict(seed=0, cwd=base_cwd, listing="reverse"),
+        "listing2": dict(seed=0, cwd=base_cwd, listing="shuffle-2"),
+        "listing3": dict(seed=0, cwd=base_cwd, listing="shuffle-3"),
     }
+    for j, h in enumerate(hints or []):
+        runs[f"hashseed-h{j}"] = dict(seed=h["seed"], cwd=base_cwd, listing="sorted")
+        runs[f"listing-h{j}"] = dict(seed=0, cwd=base_cwd, listing=h["listing"])
+        runs[f"cwd-h{j}"] = dict(seed=0, cwd=h["cwd"], listing="sorted")
     res = dict(zip(runs, pmap(lambda kw: lab.run("diag", [strip(case)], **kw), list(runs.values()))))
     base = outcome(res["base"].get("results", {}).get(case["id"]))
-    for f in ("hashseed", "hashseed2", "listing", "cwd"):
-        if outcome(res[f].get("results", {}).get(case["id"])) != base:
-            return "hashseed" if f.startswith("hashseed") else f
+    for f in sorted(runs, key=lambda f: (["hashseed", "listing", "cwd"].index(f.rstrip("23").split("-")[0]) if f != "base" else -1, f)):
+        if f != "base" and outcome(res[f].get("results", {}).get(case["id"])) != base:
+            return f.rstrip("23").split("-")[0]
     return "history"
+
+
+def same_source(a: dict, b: dict) -> bool:
+    return (a.get("text") is not None and a.get("text") == b.get("text")) or (a.get("path") is not None and a.get("path") == b.get("path"))
+
+
+def minimise_history(lab: Lab, case: dict, prefixes: list[list[dict]]) -> list[dict] | None:
+    """the shortest of a few candidate call histories after which `case` gives another output than in a fresh process:
+    only the earlier calls on the same text, only the last call, the last three, the whole prefix"""
+    cands: list[list[dict]] = []
+    for pre in prefixes:
+        pre = [strip(x) for x in pre]
+        for cand in ([x for x in pre if same_source(x, case)][-2:], pre[-1:], pre[-3:], pre):
+            if cand and cand not in cands:
+                cands.append(cand)
+    cands.sort(key=len)
+    cwd = str(lab.root / "w" / "hist")
+    runs = pmap(lambda h: lab.run("hist", [*h, strip(case)], seed=0, cwd=cwd, listing="sorted"), [[], *cands])
+    fresh = outcome(runs[0].get("results", {}).get(case["id"]))
+    for cand, r in zip(cands, runs[1:]):
+        if outcome(r.get("results", {}).get(case["id"])) != fresh:
+            return cand
+    return None
 
 
 def campaign_differential(ck: Check, lab: Lab, n_cases: int, n_fresh: int, seeds: list) -> None:
@@ -292,12 +427,14 @@ def campaign_differential(ck: Check, lab: Lab, n_cases: int, n_fresh: int, seeds
             order = list(reversed(order))
         elif i % 3 == 2:
             order = rng.shuffle(order)
-        if i > 0:  # interleave foreign generate() calls
+        if i > 0:  # interleave foreign generate() calls, and calls on the SAME text with other options
             noisy = []
             nz = noise_cases(rng, len(order) // 3 + 1, f"p{i}")
             for j, c in enumerate(order):
                 if j % 3 == 0 and nz:
                     noisy.append(nz.pop(0))
+                if c["kind"] == "discriminator" or rng.chance(1, 3):
+                    noisy.append(twin_of(rng, c, f"p{i}"))
                 noisy.append(c)
             order = noisy
         cwd = [str(lab.root / "w" / "a"), str(lab.root / "w" / "b" / "deeper" / "still"), "/tmp", str(lab.root)][i % 4]
@@ -323,6 +460,12 @@ def campaign_differential(ck: Check, lab: Lab, n_cases: int, n_fresh: int, seeds
     state_camp.evaluations += n_shared * sum(1 for nm in names if nm.startswith("P"))
     state_camp.hit("module-level Import singletons snapshotted", n_shared)
     for nm in names:
+        for fn, cnt in res[nm].get("memo_values", {}).items():   # object values handed out by lru_cache/cache functions
+            state_camp.hit("memoised object values compared with their snapshot: " + fn, cnt)
+            state_camp.evaluations += cnt
+            state_camp.distinct.add("memo:" + fn)
+    camp.hit("earlier call on the same text with other options (twin)", sum(1 for nm in names for cs in cfgs[nm]["cases"] if cs["id"].startswith("twin-")))
+    for nm in names:
         camp.hit(f"process:{'batch' if nm.startswith('P') else 'fresh'}")
         for key, (b, a) in res[nm].get("state_changed", {}).items():
             # the reviewed tags (Model/Determinism.reviewedClassMutables) say these objects never change: a change is a
@@ -342,7 +485,7 @@ def campaign_differential(ck: Check, lab: Lab, n_cases: int, n_fresh: int, seeds
         if ref.startswith("files:") and len(outs[ref_name]["files"]) > 0:
             camp.distinct.add(c["id"])
         else:
-            camp.hit("generator-error:" + ref[:40])
+            camp.hit(f"generator-error:{c['kind']}:" + ref[6:40])
         if any(o and o.get("cwd_changed") for o in outs.values()):
             camp.hit("cwd-changed-after-call(C20)")
         bad = [nm for nm, kx in keys.items() if kx != ref]
@@ -357,9 +500,17 @@ def campaign_differential(ck: Check, lab: Lab, n_cases: int, n_fresh: int, seeds
             camp.hit("further-mismatch-not-diagnosed")
             continue
         ck.notes["diagnosed"] = n_diag + 1
-        factor = diagnose(lab, c, cfgs)
-        cls = {"oracle": "differential", "entry": "generate", "factor": factor, "input": c["kind"], "same_basename": bool(c.get("same_basename"))}
-        ck.fail(cls, {"kind": "differential", "case": strip(c), "dir_files": {f: Path(c["path"], f).read_text() for f in c.get("files", [])} if c.get("path") else None},
+        factor = diagnose(lab, c, cfgs, [{k: cfgs[nm][k] for k in ("seed", "listing", "cwd")} for nm in (bad[0], ref_name)])
+        cls = {"oracle": "differential", "entry": "generate", "factor": factor, "input": c["kind"], "same_basename": bool(c.get("same_basename")),
+               "input_file_type": c["input_file_type"], "mixed_types": bool(c.get("mixed_types"))}
+        history = None
+        if factor == "history":   # which earlier calls does it take? (kept in the replay file)
+            def prefix(nm):
+                ids = [x["id"] for x in cfgs[nm]["cases"]]
+                return cfgs[nm]["cases"][: ids.index(c["id"])] if c["id"] in ids else []
+            history = minimise_history(lab, c, [prefix(bad[0]), prefix(ref_name)])
+        ck.fail(cls, {"kind": "differential", "case": strip(c), "dir_files": {f: Path(c["path"], f).read_text() for f in c.get("files", [])} if c.get("path") else None,
+                      "history": history},
                 f"process {bad[0]} (seed={cfgs[bad[0]]['seed']}, listing={cfgs[bad[0]]['listing']}) differs from {ref_name}: {first_diff(outs[ref_name] or {}, outs[bad[0]] or {})}; isolated factor: {factor}",
                 "byte-identical files in every process")
     camp.wall_s = time.time() - t0
@@ -410,7 +561,7 @@ def campaign_main_history(ck: Check, lab: Lab) -> None:
 def search(ck: Check) -> None:
     """a table obligation broke: name the unjustified sites, then run a larger differential campaign"""
     try:
-        for what in ("sites", "cache", "state", "writes"):
+        for what in ("sites", "cache", "state", "writes", "returns", "listing"):
             rep = ck.driver.run([f"det.refute {what}"])[0]
             if rep.startswith("ok "):
                 groups = rep[3:].replace("(", "").split(")")
@@ -436,11 +587,14 @@ def rerun(ck: Check, inp: dict) -> None:
                 c["path"] = lab.write_dir(c["id"], inp["dir_files"])
             runs = [dict(seed=s, cwd=str(lab.root / "w" / f"r{s}"), listing=l) for s, l in ((0, "sorted"), (1, "reverse"), (2, "shuffle-2"), (3, "shuffle-3"))]
             noise = noise_cases(ck.rng.fork("replay"), 6, "r")
+            if inp.get("history"):   # the recorded earlier calls of the failing process (same text, other options, …)
+                noise = [dict(h, path=c["path"]) if h.get("path") and c.get("path") else h for h in inp["history"]]
             res = pmap(lambda kw: lab.run("replay", ([*noise, c] if kw["seed"] else [c]), **kw), runs)
             keys = [outcome(r.get("results", {}).get(c["id"])) for r in res]
             camp.evaluations += len(keys)
             if len(set(keys)) > 1:
-                ck.fail({"oracle": "differential", "entry": "generate", "factor": diagnose(lab, c, {}), "input": c.get("kind"), "same_basename": bool(c.get("same_basename"))},
+                ck.fail({"oracle": "differential", "entry": "generate", "factor": diagnose(lab, c, {}), "input": c.get("kind"), "same_basename": bool(c.get("same_basename")),
+                         "input_file_type": c.get("input_file_type"), "mixed_types": bool(c.get("mixed_types"))},
                         inp, "outputs differ between processes: " + first_diff(res[0]["results"][c["id"]], next(r["results"][c["id"]] for r, kx in zip(res, keys) if kx != keys[0])))
     finally:
         lab.close()
